@@ -17,6 +17,7 @@ SCEN = {
         "collect x primitive-call": sc([[G], [P]], 28, []),
         "assign-global x spawn": sc([[S], ["spawn"]], 28, []),
         "assign-global x exiting thread": sc([[S], [U]], 28, []),
+        "collect x exiting thread": sc([[G], [U]], 28, []),
     },
     "thorough": {
         "collect x assign-global": sc([[G], [S]], 30, [], TS),
@@ -29,6 +30,7 @@ SCEN = {
         "assign-global x spawn": sc([[S], ["spawn"]], 40, []),
         "collect x spawn": sc([[G], ["spawn"]], 36, []),
         "assign-global x exiting thread": sc([[S], [U]], 36, []),
+        "collect x exiting thread": sc([[G], [U]], 36, []),
         # K = 60 covers one COMPLETE stop-scan-resume cycle and the other thread's wake-up after it
         # (measured: unsat in 2181 s on a loaded machine; own cap of 2 h)
         "assign-global x primitive-call, whole cycle": sc([[S], [P]], 60, []) + (7200,),
